@@ -80,6 +80,43 @@ fn rustls_pki(der: Vec<u8>) -> compio_tls::rustls::pki_types::CertificateDer<'st
     compio_tls::rustls::pki_types::CertificateDer::from(der)
 }
 
+thread_local! {
+    static PROGRESS: Cell<u64> = const { Cell::new(0) };
+}
+
+/// Something moved (bytes, a datagram, a scenario step): feeds the watchdog.
+fn bump() {
+    PROGRESS.with(|p| p.set(p.get() + 1));
+}
+
+/// Runs `fut` until it completes, or until nothing has moved for `idle` (a hang:
+/// `None`).  Not a deadline: a slow machine only makes the run longer.
+async fn watchdog<T>(idle: Duration, fut: impl Future<Output = T>) -> Option<T> {
+    use futures_util::future::{Either, select};
+    let guard = async {
+        let t0 = std::time::Instant::now();
+        let mut last = (PROGRESS.with(|p| p.get()), std::time::Instant::now());
+        loop {
+            sleep(Duration::from_millis(50)).await;
+            let p = PROGRESS.with(|p| p.get());
+            if p != last.0 {
+                last = (p, std::time::Instant::now());
+            } else if last.1.elapsed() > idle {
+                return;
+            }
+            if t0.elapsed() > Duration::from_secs(300) {
+                return;
+            }
+        }
+    };
+    match select(Box::pin(fut), Box::pin(guard)).await {
+        Either::Left((v, _)) => Some(v),
+        Either::Right(_) => None,
+    }
+}
+
+const IDLE: Duration = Duration::from_secs(8);
+
 struct Yield(usize);
 
 impl Future for Yield {
@@ -124,11 +161,13 @@ async fn establish(transport: TransportConfig) -> Option<Pair> {
         },
         async { server.wait_incoming().await?.await.ok() }
     );
+    bump();
     Some(Pair { server, client, sconn: s?, cconn: c.ok()? })
 }
 
 async fn read_chunk(r: &mut RecvStream, cap: usize) -> Result<Vec<u8>, ()> {
     let BufResult(res, buf) = r.read(Vec::with_capacity(cap.max(1))).await;
+    bump();
     match res {
         Ok(n) => {
             debug_assert_eq!(n, buf.len());
@@ -141,6 +180,7 @@ async fn read_chunk(r: &mut RecvStream, cap: usize) -> Result<Vec<u8>, ()> {
 async fn write_chunks(s: &mut SendStream, data: &[u8], wchunk: usize) -> Result<(), ()> {
     for piece in data.chunks(wchunk.max(1)) {
         let BufResult(res, _) = s.write_all(piece.to_vec()).await;
+        bump();
         res.map_err(|_| ())?;
     }
     Ok(())
@@ -206,7 +246,7 @@ fn run_data(c: &mut Case) -> Result<Vec<u64>, BadCase> {
     let verdict = rt.block_on(async {
         let lens = lens.clone();
         let (outs, dgrams, flags) = (outs.clone(), dgrams.clone(), flags.clone());
-        let r = timeout(Duration::from_secs(15), async move {
+        let r = watchdog(IDLE, async move {
             let Some(p) = establish(t).await else { return 1u64 };
             flags.set(flags.get() | 1);
             let Pair { server, client, sconn, cconn } = p;
@@ -278,6 +318,7 @@ fn run_data(c: &mut Case) -> Result<Vec<u64>, BadCase> {
                 let (sconn, dgrams) = (sconn.clone(), dgrams.clone());
                 compio_runtime::spawn(async move {
                     while let Ok(d) = sconn.recv_datagram().await {
+                        bump();
                         dgrams.borrow_mut().push(d.to_vec());
                     }
                 })
@@ -398,6 +439,7 @@ fn watch<T>(slots: &Rc<RefCell<Vec<(u64, Slot)>>>, id: u64, fut: impl Future<Out
     slots.borrow_mut().push((id, slot.clone()));
     compio_runtime::spawn(async move {
         let r = fut.await;
+        bump();
         slot.set(match r {
             Err(true) => 1,
             _ => 2,
@@ -425,7 +467,7 @@ fn run_close(c: &mut Case) -> Result<Vec<u64>, BadCase> {
     let sl = slots.clone();
     let (acc2, pk2) = (acc.clone(), parked_at_close.clone());
     let verdict = rt.block_on(async move {
-        let r = timeout(Duration::from_secs(15), async move {
+        let r = watchdog(IDLE, async move {
             let (acc, parked_at_close) = (acc2, pk2);
             let Some(p) = establish(t).await else { return 1u64 };
             let Pair { server, client, sconn, cconn } = p;
@@ -619,7 +661,7 @@ fn run_0rtt_waiters(c: &mut Case) -> Result<Vec<u64>, BadCase> {
     verif::start();
     let d = done.clone();
     let verdict = rt.block_on(async move {
-        let r = timeout(Duration::from_secs(6), async move {
+        let r = watchdog(IDLE, async move {
             let (sc, cc) = config_pair(TransportConfig::default());
             let server = Endpoint::server("127.0.0.1:0", sc).await.unwrap();
             let mut client = Endpoint::client("127.0.0.1:0").await.unwrap();
@@ -634,6 +676,7 @@ fn run_0rtt_waiters(c: &mut Case) -> Result<Vec<u64>, BadCase> {
                     let (c2, d) = (conn.clone(), d.clone());
                     compio_runtime::spawn(async move {
                         if c2.accepted_0rtt().await.is_ok() {
+                            bump();
                             d.set(d.get() + 1);
                         }
                     })
@@ -681,7 +724,7 @@ fn run_stop(c: &mut Case) -> Result<Vec<u64>, BadCase> {
     verif::start();
     let o = out.clone();
     let verdict = rt.block_on(async move {
-        timeout(Duration::from_secs(10), async move {
+        watchdog(IDLE, async move {
             let Some(Pair { server, client, sconn, cconn }) = establish(t).await else { return 1u64 };
             let srv = async {
                 let Ok(mut r) = sconn.accept_uni().await else { return };
@@ -746,13 +789,14 @@ fn run_dgram(c: &mut Case) -> Result<Vec<u64>, BadCase> {
     verif::start();
     let o = out.clone();
     let verdict = rt.block_on(async move {
-        timeout(Duration::from_secs(10), async move {
+        watchdog(IDLE, async move {
             let Some(Pair { server, client, sconn, cconn }) = establish(t).await else { return 1u64 };
             let got = Rc::new(RefCell::new(Vec::<Vec<u8>>::new()));
             {
                 let (sconn, got) = (sconn.clone(), got.clone());
                 compio_runtime::spawn(async move {
                     while let Ok(d) = sconn.recv_datagram().await {
+                        bump();
                         got.borrow_mut().push(d.to_vec());
                     }
                 })
@@ -817,7 +861,7 @@ fn run_read_to_end(c: &mut Case) -> Result<Vec<u64>, BadCase> {
     verif::start();
     let o = out.clone();
     let verdict = rt.block_on(async move {
-        timeout(Duration::from_secs(15), async move {
+        watchdog(IDLE, async move {
             let Some(Pair { server, client, sconn, cconn }) = establish(t).await else { return 1u64 };
             let data: Vec<u8> = (0..len).map(|i| (i * 13 + i / 251 + 1) as u8).collect();
             let expect = data.clone();
@@ -896,7 +940,7 @@ fn run_drop_stopped(c: &mut Case) -> Result<Vec<u64>, BadCase> {
     verif::start();
     let o = out.clone();
     let verdict = rt.block_on(async move {
-        timeout(Duration::from_secs(15), async move {
+        watchdog(IDLE, async move {
             let Some(Pair { server, client, sconn, cconn }) = establish(t).await else { return 1u64 };
             let o2 = o.clone();
             let cli = async {
@@ -935,6 +979,7 @@ fn run_drop_stopped(c: &mut Case) -> Result<Vec<u64>, BadCase> {
                     // no reset(), no finish(): the handles are just dropped
                     drop(s);
                     drop(r);
+                    bump();
                     let (_, b, cc, _) = o2.get();
                     o2.set((round as u64 + 1, b, cc, stop_seen));
                 }
